@@ -10,7 +10,9 @@ import (
 	"path/filepath"
 	"sort"
 	"strconv"
+
 	"strings"
+	"verif/harness/lib"
 )
 
 // repoRoot is the repository the texts are taken from (VERIF_REPO: a scratch copy under test).
@@ -21,7 +23,7 @@ var repoRoot = func() string {
 	return "/repo"
 }()
 
-const corpusDir = "/verif/corpus/C01"
+var corpusDir = lib.Root() + "/corpus/C01"
 
 // Seed is one YANG text found in the repository.
 type Seed struct {
